@@ -99,7 +99,7 @@ def shquote(s):
 
 
 CHECK_RE = re.compile(
-    r"Check \d+: (?P<name>\S+)\n\s+- Status: (?P<status>\w+)\n\s+- Description: \"(?P<desc>.*)\"\n\s+- Location: (?P<loc>.*)")
+    r"Check \d+: (?P<name>.+)\n\s+- Status: (?P<status>\w+)\n\s+- Description: \"(?P<desc>.*)\"\n\s+- Location: (?P<loc>.*)")
 
 
 def parse_kani_log(text):
